@@ -258,15 +258,59 @@ func runC17(ctx *h.Ctx) int {
 		prof.PTextArg, prof.PMovesArg = 0.3, 0.15
 		g := spec.NewGen(k.R, prof)
 		prog := g.FullProgram(2 + k.R.IntN(5))
+		// sometimes a label statement in one script is spelled like a sub-label of ANOTHER script
+		// (legal: only a script's own generated labels and text labels are reserved)
+		var scs []*spec.Script
+		for _, it := range prog.Items {
+			if sc, ok := it.(*spec.Script); ok {
+				scs = append(scs, sc)
+			}
+		}
+		if len(scs) >= 2 && k.R.IntN(3) == 0 {
+			a, b := k.R.IntN(len(scs)), k.R.IntN(len(scs))
+			if a != b {
+				lbl := &spec.Label{ID: prog.NewID(), Name: fmt.Sprintf("%s_%d", scs[a].Name, 1+k.R.IntN(6))}
+				scs[b].Body.Stmts = append([]spec.Stmt{lbl}, scs[b].Body.Stmts...)
+				k.Count("files_with_label_spelled_like_another_scripts_sublabel", 1)
+			}
+		}
 		opt := k.R.IntN(2) == 0
 		full := h.Compile(spec.Source(prog), optsOf(prog, opt))
 		k.Count("evaluations", 1)
 		k.SetSource(spec.Source(prog))
+		// the same statements in the opposite order: same acceptance, same blocks
+		rev := &spec.Program{AutoVars: prog.AutoVars, Switches: prog.Switches}
+		for i := len(prog.Items) - 1; i >= 0; i-- {
+			rev.Items = append(rev.Items, prog.Items[i])
+		}
+		rres := h.Compile(spec.Source(rev), optsOf(prog, opt))
+		k.Count("evaluations", 1)
+		if full.OK() != rres.OK() {
+			k.Violation("order-changes-acceptance", fmt.Sprintf("the file is accepted in one order of its top-level statements and rejected in the other: original order %q, reversed %q", full.ErrString(), rres.ErrString()), map[string]interface{}{"reversed_source": spec.Source(rev)})
+			return
+		}
 		if !full.OK() {
 			k.Count("rejected", 1)
 			return
 		}
 		fp, fh := normBlocks(full.Out)
+		rp0, rh0 := normBlocks(rres.Out)
+		same := len(fp) == len(rp0) && len(fh) == len(rh0)
+		for b, n := range fp {
+			if rp0[b] != n {
+				same = false
+			}
+		}
+		for b := range fh {
+			if !rh0[b] {
+				same = false
+			}
+		}
+		if !same {
+			k.Violation("order-changes-code", "the same top-level statements in the opposite order emit different blocks (beyond numbering/sharing of hoisted labels)", map[string]interface{}{"original": full.Out, "reversed": rres.Out})
+			return
+		}
+		k.Count("order_pairs_equal", 1)
 		sumPlain := map[string]int{}
 		unionH := map[string]bool{}
 		for i, it := range prog.Items {
